@@ -9,6 +9,12 @@ import Mathlib.Tactic.Ring
 import Mathlib.Tactic.Linarith
 import Mathlib.Tactic.NormNum
 import Mathlib.Tactic.LinearCombination
+import Mathlib.Tactic.FieldSimp
+import Mathlib.Analysis.Calculus.Deriv.Slope
+import Mathlib.Analysis.Calculus.Deriv.Mul
+import Mathlib.Analysis.Calculus.Deriv.Add
+import Mathlib.Topology.Instances.Matrix
+import Mathlib.Topology.Algebra.GroupWithZero
 
 /-!
 # C18 — helper lemmas for the analysis theorems (`Props/C18_analysis.lean`)
@@ -18,7 +24,7 @@ import Mathlib.Tactic.LinearCombination
 * the closed forms of the two affine recurrences `u_{k+1} = M u_k + c` and `M u_{k+1} = u_k + c`;
 * list algebra for the observation maps (`ldot` is a sum; linear in its second argument).
 -/
-open Finset Matrix
+open Finset Matrix Filter Topology
 
 set_option linter.unusedSectionVars false
 set_option linter.unusedVariables false
@@ -149,5 +155,69 @@ lemma vecL_congr (n : ℕ) (x y : Vec S) (h : ∀ i, i < n → x i = y i) : vecL
   exact List.map_congr_left fun i hi => h i (List.mem_range.mp hi)
 
 end lists
+
+/-! ## implicit differentiation of a linear system -/
+
+/-- implicit differentiation of a linear system (pure Mathlib statement) -/
+lemma hasDerivAt_linear_solve {n : ℕ} (A : ℝ → Matrix (Fin n) (Fin n) ℝ) (b u : ℝ → Fin n → ℝ)
+    (A' : Matrix (Fin n) (Fin n) ℝ) (b' : Fin n → ℝ) (s0 : ℝ)
+    (hA : ∀ i j, HasDerivAt (fun s => A s i j) (A' i j) s0)
+    (hb : ∀ i, HasDerivAt (fun s => b s i) (b' i) s0)
+    (hcert : ∀ᶠ s in 𝓝 s0, A s *ᵥ u s = b s) (hdet : (A s0).det ≠ 0) (i : Fin n) :
+    HasDerivAt (fun s => u s i) (((A s0)⁻¹ *ᵥ (b' - A' *ᵥ u s0)) i) s0 := by
+  -- continuity of `A` at `s0`
+  have hAc : ContinuousAt A s0 := by
+    refine tendsto_pi_nhds.mpr fun i => tendsto_pi_nhds.mpr fun j => ?_
+    exact (hA i j).continuousAt
+  have hdetc : ContinuousAt (fun s => (A s).det) s0 :=
+    (continuous_id.matrix_det.continuousAt (x := A s0)).comp hAc
+  have hdet_ev : ∀ᶠ s in 𝓝 s0, (A s).det ≠ 0 := hdetc.eventually_ne hdet
+  have hinvc : ContinuousAt (fun s => (A s)⁻¹) s0 := by
+    have h1 : ContinuousAt Ring.inverse (A s0).det := by
+      rw [Ring.inverse_eq_inv']
+      exact continuousAt_inv₀ hdet
+    exact (continuousAt_matrix_inv (A s0) h1).comp hAc
+  -- the slope of `u` near `s0`
+  let G : ℝ → Fin n → ℝ := fun s =>
+    (A s)⁻¹ *ᵥ ((fun j => slope (fun s => b s j) s0 s) - (Matrix.of fun j k => slope (fun s => A s j k) s0 s) *ᵥ u s0)
+  have hG : Tendsto (fun s => G s i) (𝓝[≠] s0) (𝓝 (((A s0)⁻¹ *ᵥ (b' - A' *ᵥ u s0)) i)) := by
+    simp only [G, Matrix.mulVec, dotProduct, Pi.sub_apply, Matrix.of_apply]
+    refine tendsto_finsetSum _ fun j _ => Tendsto.mul ?_ (Tendsto.sub ?_ ?_)
+    · have : Tendsto (fun s => (A s)⁻¹) (𝓝[≠] s0) (𝓝 (A s0)⁻¹) := hinvc.tendsto.mono_left nhdsWithin_le_nhds
+      exact (tendsto_pi_nhds.mp (tendsto_pi_nhds.mp this i) j)
+    · exact hasDerivAt_iff_tendsto_slope.mp (hb j)
+    · refine tendsto_finsetSum _ fun k _ => Tendsto.mul ?_ tendsto_const_nhds
+      exact hasDerivAt_iff_tendsto_slope.mp (hA j k)
+  rw [hasDerivAt_iff_tendsto_slope]
+  refine hG.congr' ?_
+  have hev : ∀ᶠ s in 𝓝[≠] s0, A s *ᵥ u s = b s ∧ (A s).det ≠ 0 :=
+    (hcert.and hdet_ev).filter_mono nhdsWithin_le_nhds
+  have h0 : A s0 *ᵥ u s0 = b s0 := hcert.self_of_nhds
+  filter_upwards [hev, self_mem_nhdsWithin] with s hs hne
+  obtain ⟨hc, hd⟩ := hs
+  have hne' : s - s0 ≠ 0 := sub_ne_zero.mpr hne
+  -- `A s (u s - u s0) = (s - s0) • (Sb - SA u s0)`
+  have key : u s - u s0 = (s - s0) • G s := by
+    have hunit : IsUnit (A s).det := isUnit_iff_ne_zero.mpr hd
+    have : A s *ᵥ (u s - u s0) = (s - s0) •
+        ((fun j => slope (fun s => b s j) s0 s) - (Matrix.of fun j k => slope (fun s => A s j k) s0 s) *ᵥ u s0) := by
+      rw [Matrix.mulVec_sub, hc]
+      funext j
+      simp only [Pi.sub_apply, Pi.smul_apply, smul_eq_mul, Matrix.mulVec, dotProduct, Matrix.of_apply,
+        slope_def_field]
+      have h0j : b s0 j = ∑ k, A s0 j k * u s0 k := by
+        rw [← h0]; simp [Matrix.mulVec, dotProduct]
+      rw [h0j, mul_sub, mul_div_cancel₀ _ hne', Finset.mul_sum]
+      have e : ∀ k, (s - s0) * ((A s j k - A s0 j k) / (s - s0) * u s0 k)
+          = A s j k * u s0 k - A s0 j k * u s0 k := by
+        intro k
+        field_simp
+      simp only [e, Finset.sum_sub_distrib]
+      ring
+    simp only [G]
+    rw [← Matrix.mulVec_smul, ← this, Matrix.mulVec_mulVec, Matrix.nonsing_inv_mul _ hunit, Matrix.one_mulVec]
+  have := congrFun key i
+  simp only [Pi.sub_apply, Pi.smul_apply, smul_eq_mul] at this
+  rw [slope_def_field, this, mul_div_cancel_left₀ _ hne']
 
 end CuqiVerif.C18
